@@ -167,6 +167,19 @@ Theorem C15_list_item_target_in_dump_refuted :
 Proof. exact list_item_refuted. Qed.
 Print Assumptions C15_list_item_target_in_dump_refuted.
 
+(* skipped-link-target-stripped: a link whose class-valued source is absent is not applied and the target keeps the
+   supplied value — C15_target_absent_from_dump nevertheless removes it, so no re-parse of the dump can reconstruct
+   it (guard of this finding class: skipped_target_present, the function the judge uses for class 3). *)
+Theorem C15_skipped_link_target_stripped_refuted :
+  exists classes ds ls pre cfg a v,
+    finish wfn classes (fst (build ds ls)) pre = Ok cfg /\ In a (p_links (fst (build ds ls))) /\
+    overlap_free (map al_link (p_links (fst (build ds ls)))) = true /\
+    skipped_target_present (p_links (fst (build ds ls))) cfg = true /\
+    mapM (get cfg) (al_src a) = None /\ get cfg (al_tgt a) = Some v /\
+    get (strip (fst (build ds ls)) cfg) (al_tgt a) = None.
+Proof. exact skipped_refuted. Qed.
+Print Assumptions C15_skipped_link_target_stripped_refuted.
+
 (* ---------------------------------------------------------------- 7. the repaired link_arguments
    (fixes/C15-link-key-prefix-overlap.patch; Model build_fixed): no guard is left. *)
 Theorem C15_fixed_link_invariant :
